@@ -30,6 +30,12 @@ def check(run):
     ebehs, est = ([], {})
     if not run.violations:
         ebehs, est = xc.engine_phase(run, 40 if quick else 500)
+    # network level: several real engines exchange the blocks they mine; every produced block must be accepted by the
+    # other nodes and lead them to the producer's state (Net.tla)
+    nst = {}
+    if not run.violations:
+        run.tlc_mc("Net.tla", "MC_Net.cfg" if quick else "MC_Net_thorough.cfg", timeout=3000)
+        _, nst = xc.net_phase(run, 20 if quick else 300, mc=False)
     behs = [b for _, bs, _ in groups for b in bs]
     st = xc.stats(behs)
     ops = [o for b in behs for o in b]
@@ -46,4 +52,5 @@ def check(run):
     run.finish(require={"mined_blocks": (len(mined), 40), "mined_with_3_or_more_txs": (sum(1 for o in mined if len(o.get("txs") or []) >= 3), 10),
                         "replicas": (run.cov.get("real_replicas", 0), 40),
                         "mined_with_budget_reached": (run.cov.get("mined_with_budget_reached", 0), 3),
-                        "engine_pushes": (run.cov.get("real_pushes", 0), 100), "engine_mining_rounds": (est.get("mine:ok", 0), 5)})
+                        "engine_pushes": (run.cov.get("real_pushes", 0), 100), "engine_mining_rounds": (est.get("mine:ok", 0), 5),
+                        "network_mining_rounds": (nst.get("nmine:ok", 0), 30), "network_block_deliveries": (nst.get("ndeliverblk:ok", 0), 30)})
